@@ -34,8 +34,8 @@ use self::inode_store::{InodeId, InodeStore};
 use self::mount_fd::MountFds;
 use self::statx::{statx, StatExt};
 use self::util::{
-    ebadf, einval, enosys, eperm, is_dir, is_safe_inode, openat, reopen_fd_through_proc, stat_fd,
-    UniqueInodeGenerator,
+    ebadf, einval, enosys, eperm, is_dir, is_safe_inode, is_virtual_inode, openat,
+    reopen_fd_through_proc, stat_fd, UniqueInodeGenerator,
 };
 use crate::abi::fuse_abi as fuse;
 use crate::abi::fuse_abi::Opcode;
@@ -711,14 +711,22 @@ impl<S: BitmapSlice + Send + Sync> PassthroughFs<S> {
             Ok(InodeMap::get_inode_locked(inodes, id, handle_opt)
                 .unwrap_or_else(|| self.next_inode.fetch_add(1, Ordering::Relaxed)))
         } else {
-            let inode = if id.ino > MAX_HOST_INO {
-                // Prefer looking for previous mappings from memory
-                match InodeMap::get_inode_locked(inodes, id, handle_opt) {
-                    Some(ino) => ino,
-                    None => self.ino_allocator.get_unique_inode(id)?,
+            let inode = match InodeMap::get_inode_locked(inodes, id, handle_opt) {
+                // Prefer looking for previous mappings from memory: inodes in the virtual format
+                // keep theirs across forget, see forget_one().
+                Some(ino) if is_virtual_inode(ino) => ino,
+                _ => {
+                    let inode = self.ino_allocator.get_unique_inode(id)?;
+                    // The host may hand the inode number of a deleted file out again while the
+                    // client still holds references to that file (only possible with file
+                    // handles: no descriptor keeps the old inode alive). The number must not be
+                    // issued twice.
+                    if inodes.get(&inode).is_some() {
+                        self.ino_allocator.get_unique_virtual_inode(id)?
+                    } else {
+                        inode
+                    }
                 }
-            } else {
-                self.ino_allocator.get_unique_inode(id)?
             };
 
             Ok(inode)
@@ -872,8 +880,9 @@ impl<S: BitmapSlice + Send + Sync> PassthroughFs<S> {
                         verif_point!(POINT_FORGET_BEFORE_REMOVE);
                         // We just removed the last refcount for this inode.
                         // The allocated inode number should be kept in the map when use_host_ino
-                        // is false or host inode(don't use the virtual 56bit inode) is bigger than MAX_HOST_INO.
-                        let keep_mapping = !self.cfg.use_host_ino || data.id.ino > MAX_HOST_INO;
+                        // is false or the inode is in the virtual format (host inode number bigger than
+                        // MAX_HOST_INO, or in use for another file when this one was first seen).
+                        let keep_mapping = !self.cfg.use_host_ino || is_virtual_inode(inode);
                         inodes.remove(&inode, keep_mapping);
                     }
                     break;
